@@ -9,6 +9,7 @@ CONSTANTS
   Reactions <- AllReactions
   HandlerReconnect = TRUE
   SrvMayStall = TRUE
+  HEAtomic = TRUE
   ShutdownBoth = TRUE
   Fixed = TRUE
   Emit = FALSE
@@ -19,3 +20,4 @@ INVARIANT IdleMeansConnectable
 INVARIANT SuccessorAfterPredecessor
 PROPERTY RefusalIsClean
 PROPERTY InvalidStateIffActive
+PROPERTY NoCrossTeardown
